@@ -484,6 +484,89 @@ Section ElementInt.
   Qed.
 End ElementInt.
 
+(* axisymmetric mode with certified (inexact) tables: explicit error bound *)
+Lemma axi_radius_bound v0 v1 v2 p eps nodes q N Gx Gy : (1 <= p)%nat -> RefIds p eps nodes q N Gx Gy ->
+  let X := elmap v0 v1 v2 in
+  Rabs (rdot N (map fst (map X nodes)) - fst (X q)) <= eps * (Rabs (fst v2) + Rabs (fst v0 - fst v2) + Rabs (fst v1 - fst v2)).
+Proof.
+  intros Hp HR X.
+  set (P := [(fst v2, (0, 0)%nat); (fst v0 - fst v2, (1, 0)%nat); (fst v1 - fst v2, (0, 1)%nat)] : poly).
+  assert (DP : pdeg_le p P) by (intros t [<-|[<-|[<-|[]]]]; cbn; lia).
+  destruct (ref_poly p eps nodes q N Gx Gy P HR DP) as [B _].
+  assert (E : forall xi, fst (X xi) = peval P xi).
+  { intros xi. unfold X, elmap, affmap, peval, plin, P, rmon; cbn. ring. }
+  replace (map fst (map X nodes)) with (map (peval P) nodes) by (rewrite map_map; apply map_ext; intros; symmetry; apply E).
+  rewrite E. replace (Rabs (fst v2) + Rabs (fst v0 - fst v2) + Rabs (fst v1 - fst v2)) with (pnorm1 P) by (unfold pnorm1, P; cbn; ring).
+  exact B.
+Qed.
+Lemma axi_sum_bound (X : R * R -> R * R) (f : R * R -> R) xs D M pts Ns ws :
+  Forall2 (fun q N => Rabs (rdot N xs - fst (X q)) <= D) pts Ns -> length pts = length ws ->
+  (forall w, In w ws -> 0 < w) -> (forall q, In q pts -> Rabs (f (X q)) <= M) -> 0 <= D -> 0 <= M ->
+  Rabs (rdot (map (fun Nw : list R * R => rdot (fst Nw) xs * snd Nw) (combine Ns ws)) (map f (map X pts))
+        - rdot ws (map (fun xi => fst (X xi) * f (X xi)) pts)) <= D * M * rsum ws.
+Proof.
+  intros HF. revert ws. induction HF as [|q N pts' Ns' Hq HF IH]; intros ws L Hw Hf HD HM.
+  - destruct ws; [|discriminate]. cbn. rewrite Rminus_0_r, Rabs_R0. lra.
+  - destruct ws as [|w ws]; [discriminate|]. injection L as L.
+    assert (IH' := IH ws L (fun w' H => Hw w' (or_intror H)) (fun q' H => Hf q' (or_intror H)) HD HM).
+    cbn [combine map rdot rsum fst snd].
+    match goal with |- Rabs (?a + ?b - (?c + ?e)) <= _ => replace (a + b - (c + e)) with ((a - c) + (b - e)) by ring end.
+    eapply Rle_trans; [apply Rabs_triang|].
+    assert (W : 0 < w) by (apply Hw; left; reflexivity).
+    assert (Fq : Rabs (f (X q)) <= M) by (apply Hf; left; reflexivity).
+    replace (rdot N xs * w * f (X q) - w * (fst (X q) * f (X q))) with (w * ((rdot N xs - fst (X q)) * f (X q))) by ring.
+    rewrite Rabs_mult, (Rabs_pos_eq w) by lra. rewrite Rabs_mult.
+    pose proof (Rabs_pos (rdot N xs - fst (X q))). pose proof (Rabs_pos (f (X q))).
+    assert (Rabs (rdot N xs - fst (X q)) * Rabs (f (X q)) <= D * M) by nra. nra.
+Qed.
+Theorem lift_axisymmetric_tol v0 v1 v2 p d k nodes pts Ns ws f fx fy P eps_s eps_q M :
+  (1 <= p)%nat -> (k + 1 <= d)%nat -> PolyG k f fx fy ->
+  TriQuadExact d eps_q pts ws ->
+  Forall2 (fun q N => exists Gx Gy, RefIds p eps_s nodes q N Gx Gy) pts Ns ->
+  pdeg_le d P -> (forall xi, fst (elmap v0 v1 v2 xi) * f (elmap v0 v1 v2 xi) = peval P xi) ->
+  0 <= M -> (forall q, In q pts -> Rabs (f (elmap v0 v1 v2 q)) <= M) -> 0 <= eps_s ->
+  Rabs (rdot (vols_axiR v0 v1 v2 Ns (map fst (map (elmap v0 v1 v2) nodes)) ws) (map f (map (elmap v0 v1 v2) pts))
+        - 2 * PI * (jacR v0 v1 v2 * pint_ref P))
+    <= 2 * PI * Rabs (jacR v0 v1 v2) *
+       (eps_q * pnorm1 P
+        + eps_s * (Rabs (fst v2) + Rabs (fst v0 - fst v2) + Rabs (fst v1 - fst v2)) * M * (1 / 2 + eps_q)).
+Proof.
+  intros Hp Hk Hf HQ HN DP HE HM0 HM Hes.
+  set (X := elmap v0 v1 v2) in *. set (jac := jacR v0 v1 v2). set (xs := map fst (map X nodes)).
+  set (Cx := Rabs (fst v2) + Rabs (fst v0 - fst v2) + Rabs (fst v1 - fst v2)).
+  assert (HCx : 0 <= Cx) by (unfold Cx; pose proof (Rabs_pos (fst v2)); pose proof (Rabs_pos (fst v0 - fst v2)); pose proof (Rabs_pos (fst v1 - fst v2)); lra).
+  pose proof (quad_weight_sum d eps_q pts ws HQ) as HW. apply Rabs_le_between in HW.
+  assert (HF : Forall2 (fun q N => Rabs (rdot N xs - fst (X q)) <= eps_s * Cx) pts Ns).
+  { clear - HN Hp. induction HN as [|q N pts' Ns' [Gx [Gy HR]] HN IH]; constructor; [|exact IH].
+    apply (axi_radius_bound v0 v1 v2 p eps_s nodes q N Gx Gy Hp HR). }
+  set (S1 := rdot (map (fun Nw : list R * R => rdot (fst Nw) xs * snd Nw) (combine Ns ws)) (map f (map X pts))).
+  set (S2 := rdot ws (map (fun xi => fst (X xi) * f (X xi)) pts)).
+  assert (E : rdot (vols_axiR v0 v1 v2 Ns xs ws) (map f (map X pts)) = 2 * PI * jac * S1).
+  { unfold vols_axiR, el_vols_axi, S1.
+    rewrite (map_ext _ (fun Nw : list R * R => (2 * PI * jac) * (rdot (fst Nw) xs * snd Nw))).
+    - rewrite <- (map_map (fun Nw : list R * R => rdot (fst Nw) xs * snd Nw) (fun y => 2 * PI * jac * y)). apply rdot_scal_l.
+    - intros [N w]. cbn [fst snd nmul NumR]. rewrite ndot_R. change (@el_jac R NumR v0 v1 v2) with jac. ring. }
+  rewrite E.
+  assert (B1 : Rabs (S1 - S2) <= eps_s * Cx * M * rsum ws).
+  { destruct HQ as [L [_ [Hw _]]]. apply axi_sum_bound; try assumption. apply Rmult_le_pos; assumption. }
+  assert (B2 : Rabs (jac * S2 - jac * pint_ref P) <= Rabs jac * (eps_q * pnorm1 P)).
+  { pose proof (lift_quad_core v0 v1 v2 d eps_q pts ws (fun y => fst y * f y) P HQ DP HE) as B.
+    rewrite volsR_eq, rdot_scal_l, map_map in B. exact B. }
+  replace (2 * PI * jac * S1 - 2 * PI * (jac * pint_ref P))
+    with (2 * PI * (jac * (S1 - S2)) + 2 * PI * (jac * S2 - jac * pint_ref P)) by ring.
+  eapply Rle_trans; [apply Rabs_triang|].
+  pose proof PI_RGT_0 as Hpi.
+  rewrite !Rabs_mult, (Rabs_pos_eq 2), (Rabs_pos_eq PI) by lra.
+  pose proof (Rabs_pos jac) as Hj. pose proof (pnorm1_nonneg P) as HP.
+  assert (B3 : Rabs (S1 - S2) <= eps_s * Cx * M * (1 / 2 + eps_q)).
+  { eapply Rle_trans; [exact B1|]. apply Rmult_le_compat_l; [|lra]. apply Rmult_le_pos; [apply Rmult_le_pos|]; assumption. }
+  assert (T1 : 2 * PI * (Rabs jac * Rabs (S1 - S2)) <= 2 * PI * (Rabs jac * (eps_s * Cx * M * (1 / 2 + eps_q)))).
+  { apply Rmult_le_compat_l; [lra|]. apply Rmult_le_compat_l; assumption. }
+  assert (T2 : 2 * PI * Rabs (jac * S2 - jac * pint_ref P) <= 2 * PI * (Rabs jac * (eps_q * pnorm1 P))).
+  { apply Rmult_le_compat_l; [lra | exact B2]. }
+  lra.
+Qed.
+
 (* ------------------------------------------------------------------ meshes: lists of vertex triples *)
 Definition tri := ((R * R) * (R * R) * (R * R))%type.
 Definition tri_vols (ws : list R) (t : tri) : list R := let '(a, c, d) := t in volsR a c d ws.
